@@ -91,9 +91,13 @@ def verify_function(qualname):
                          "backend": "pyvc", "ms": 0.0, "note": f"generator error: {type(exc).__name__}: {exc}\n{traceback.format_exc(limit=4)}"})
             continue
         slow = 0
-        for ob in obls:
-            if tag:
+        if tag:
+            for ob in obls:
                 ob.name = ob.name.replace(":", tag + ":", 1)
+        if len(obls) > 100:
+            recs.extend(_parallel_discharge(obls, qualname))
+            obls = []
+        for ob in obls:
             if slow >= 3 and ob.expect != "sat":
                 recs.append({"name": ob.name, "kind": ob.kind, "function": qualname, "status": "undecided", "backend": "skipped",
                              "ms": 0.0, "note": "solver budget of this function exhausted by earlier undecided obligations"})
@@ -139,6 +143,58 @@ def verify_function(qualname):
         desc["encoder_vs_cpython"] = f"not run: {type(exc).__name__}: {exc}"
     desc["seconds"] = round(time.time() - t0, 2)
     return qualname, desc, recs
+
+
+def _parallel_discharge(obls, qualname, procs=None):
+    """A function with hundreds of obligations: plain fork/join over interleaved shares (works inside
+    a daemonic pool worker, where multiprocessing cannot start children).  Each share keeps the
+    per-function budget rule (after 2 undecided obligations the rest of the share is skipped)."""
+    import pickle
+
+    procs = procs or int(os.environ.get("PYVC_INNER_PROCS", "8"))
+    budget = int(os.environ.get("PYVC_BUDGET", "2"))
+    pipes = []
+    for r in range(procs):
+        rd, wr = os.pipe()
+        pid = os.fork()
+        if pid == 0:
+            os.close(rd)
+            out = []
+            slow = 0
+            try:
+                for i in range(r, len(obls), procs):
+                    ob = obls[i]
+                    if slow >= budget and ob.expect != "sat":
+                        out.append((i, {"name": ob.name, "kind": ob.kind, "function": qualname, "status": "undecided", "backend": "skipped", "ms": 0.0,
+                                        "note": "solver budget of this function exhausted by earlier undecided obligations"}))
+                        continue
+                    try:
+                        rec = solve.discharge(ob)
+                        if rec["status"] == "undecided":
+                            slow += 1
+                    except Exception as exc:  # noqa: BLE001
+                        rec = {"name": ob.name, "kind": ob.kind, "function": qualname, "status": "undecided", "backend": "solver-error", "ms": 0.0, "note": str(exc)}
+                    out.append((i, rec))
+                with os.fdopen(wr, "wb") as fh:
+                    pickle.dump(out, fh)
+            finally:
+                os._exit(0)
+        os.close(wr)
+        pipes.append((pid, rd))
+    got = {}
+    for pid, rd in pipes:
+        with os.fdopen(rd, "rb") as fh:
+            data = fh.read()
+        os.waitpid(pid, 0)
+        try:
+            for i, rec in pickle.loads(data):
+                got[i] = rec
+        except Exception:  # noqa: BLE001 - a share died: its obligations are undecided
+            pass
+    out = []
+    for i, ob in enumerate(obls):
+        out.append(got.get(i) or {"name": ob.name, "kind": ob.kind, "function": qualname, "status": "undecided", "backend": "solver-error", "ms": 0.0, "note": "discharge worker died"})
+    return out
 
 
 def run_functions(names, procs=None):
